@@ -4,7 +4,8 @@
    CommitHistory.v, CommitHistoryEx.v, PathAbstraction.v, PathAbstractionC16.v, GnmiHistory.v, GnmiHistoryEx.v,
    (wildcards) WildcardElements.v, GnmiGet.v, GnmiGetEx.v, (reader's view) CfgViewProofs.v.
 
-   Proved for ALL inputs (repaired code, 3126412 / 6e6477b / 6c3f66e):
+   Proved for ALL inputs (repaired code, 3126412 / 6e6477b / 6c3f66e / 13d170a: a deleted value leaves its deleted
+   ancestors in place, only a live value removes them):
    - C03_commit_refines: the live leaves a Get reads after reconcileCommit has merged a change map into ANY stored
      map and the configuration store has written the result are exactly those of one gNMI request applied to the
      leaves before: an update sets its leaf, a delete removes the node and what lies strictly beneath it at a path
